@@ -14,6 +14,7 @@ TInit == /\ tid \in 1..Len(Traces) /\ ln = 1
          /\ ctor = Traces[tid].ctor
          /\ evals = <<>> /\ nf = 0 /\ nb = 0 /\ hist = <<>> /\ TLCSet(tid, 0)
 Act == CASE Ev.op = "map" -> Map(Ev.args[1])
+         [] Ev.op = "map_ambiguous" -> MapAmbiguous(Ev.args[1])
          [] Ev.op = "map_each" -> MapEach(Ev.args[1], Ev.args[3])
          [] Ev.op = "slice" -> Slice(Ev.args[1], Ev.args[2], Ev.args[3], Ev.args[4])
          [] Ev.op = "fancy" -> Fancy(Ev.args[1], Ev.args[2])
